@@ -393,6 +393,23 @@ def op_twin_touch(recs, rng, arg=None):
     return _copy_chain(recs, rng, True)
 
 
+def op_relabel_second(recs, rng, arg=None):
+    """the atoms after the first TER get another chain label (a twin copy becomes chain Z)"""
+    out, seen = [], False
+    for r in recs:
+        if r.get('k') == 'ter':
+            seen = True
+        if seen and r.get('k') == 'atom':
+            r = dict(r, chain='Z')
+        out.append(r)
+    return out
+
+
+def op_no_ter(recs, rng, arg=None):
+    """no TER record at all: the file is one input molecule, whatever it holds"""
+    return [r for r in recs if r.get('k') != 'ter']
+
+
 def op_ligand(recs, rng, arg=None):
     """the heme group of the test data as a HETATM molecule after a TER, an ion and two waters"""
     at = _atoms(recs)
@@ -684,13 +701,43 @@ def project_system(system, ff, name, dist, fudge):
             'fn': fudge[0], 'fd': fudge[1]}
 
 
-def run_makebonds(system, name, dist, fudge):
+class _Stop(Exception):
+    pass
+
+
+def _through_the_command_line_glue(glue, system, name, dist, fudge):
+    """The bond step as bin/martinize2 wires it (pdb_to_universal with the -bonds-from / -bonds-fudge values), stopped at the
+    stage that follows it; returns the system that stage would have received."""
+    import vermouth
+    captured = {}
+    orig = vermouth.MergeNucleicStrands.run_system
+
+    def stop(self, sys_):
+        captured['system'] = sys_
+        raise _Stop()
+    vermouth.MergeNucleicStrands.run_system = stop
+    try:
+        glue.pdb_to_universal(system, delete_unknown=False, force_field=system.force_field, bonds_from_name=name,
+                              bonds_from_dist=dist, bonds_fudge=fudge[0] / fudge[1])
+    except _Stop:
+        pass
+    finally:
+        vermouth.MergeNucleicStrands.run_system = orig
+    if 'system' not in captured:
+        raise RuntimeError('pdb_to_universal never reached the stage after the bond step')
+    return captured['system']
+
+
+def run_makebonds(system, name, dist, fudge, glue=None):
     from vermouth.processors import MakeBonds
     got = {'err': False, 'mols': [], 'molof': [], 'edges': [], 'wunk': 0, 'wdup': 0}
     n = sum(len(m) for m in system.molecules)
     try:
         with capture() as warn:
-            MakeBonds(allow_name=name, allow_dist=dist, fudge=fudge[0] / fudge[1]).run_system(system)
+            if glue is not None:
+                system = _through_the_command_line_glue(glue, system, name, dist, fudge)
+            else:
+                MakeBonds(allow_name=name, allow_dist=dist, fudge=fudge[0] / fudge[1]).run_system(system)
         got['wunk'] = warn.types.get('unknown-residue', 0)
         got['wdup'] = warn.types.get('inconsistent-data', 0)
         molof = [0] * n
@@ -827,7 +874,9 @@ def run_case(case, R):
             name, dist = parts[1] in ('name', 'both'), parts[1] in ('distance', 'both')
             fudge = tuple(int(x) for x in parts[2].split('/')) if len(parts) > 2 else tuple(case['fudge'])
         s = project_system(system, ff, name, dist, fudge)
-        got = run_makebonds(system, name, dist, fudge)
+        # a single-run case marked glue=True goes through the glue of the command line (pdb_to_universal of bin/martinize2)
+        single = [x for x in case.get('history', ['run']) if x.startswith('run')] == [step] and len(case.get('history', ['run'])) == 1
+        got = run_makebonds(system, name, dist, fudge, st['m2'] if single and case.get('glue') else None)
         ev = {'kind': 'real', 'hasfile': first, 'file': tla_file(frecs, fmt, opts) if first else [], 'read': read if first else [],
               'sys': s, 'got': {k: v for k, v in got.items() if k != 'exc'}}
         events.append({'event': ev, 'case': case, 'step': len(events), 'exc': got.get('exc', '')})
@@ -848,6 +897,11 @@ def plan(tier, seed):
     # --- quick: small structures, every option once
     q.append(_case('dipro', seed=seed))                                                    # CONECT for every bond
     q.append(_case('dipro', mode='none', seed=seed))                                       # -bonds-from none: CONECT only
+    # the same through pdb_to_universal of bin/martinize2, on a file without TER that holds two unconnected chains: the bond
+    # step must still split it into the connected groups, whatever -bonds-from says
+    q.append(_case('dipro', ['twin_far', 'relabel_second', 'no_ter'], mode='none', seed=seed + 12, glue=True))
+    q.append(_case('trpcage', ['twin_far', 'relabel_second', 'no_ter'], mode='name', seed=seed + 13, glue=True))
+    q.append(_case('dipro', ['twin_far'], fudge=(1, 1), seed=seed + 14, glue=True))
     q.append(_case('dipro', ['drop:4', 'shuffle'], mode='distance', fudge=(1, 1), seed=seed))
     q.append(_case('trpcage', seed=seed))
     q.append(_case('trpcage', ['unkres:2', 'unkel:3', 'icode'], seed=seed + 1))
